@@ -3694,6 +3694,17 @@ static Token *global_variable(Token *tok, Type *basety, VarAttr *attr) {
         !prev->var->is_local && prev->var->is_definition && !prev->var->is_tentative)
       error_tok(ty->name, "redefinition of '%s'", prev->var->name);
 
+    // An array type of unknown size is completed by an earlier
+    // declaration of the same object that gives the size (composite
+    // type, C11 6.2.7p3): 'int a[5]; int a[];' declares five elements.
+    if (prev && prev->var && !prev->var->is_function && !prev->var->is_local &&
+        ty->kind == TY_ARRAY && ty->array_len < 0 &&
+        prev->var->ty->kind == TY_ARRAY && prev->var->ty->array_len >= 0) {
+      Token *name = ty->name;
+      ty = copy_type(prev->var->ty);
+      ty->name = name;
+    }
+
     Obj *var = new_gvar(get_ident(ty->name), ty);
     // A declaration with an initializer is a definition even when it
     // says extern (C11 6.9.2p1).
@@ -3753,8 +3764,21 @@ static void scan_globals(void) {
 
     // If there's another definition, the tentative definition
     // is redundant
-    if (!var2)
-      cur = cur->next = var;
+    if (var2)
+      continue;
+
+    // A tentative definition of an array of unknown size takes its size
+    // from another declaration of the object; if there is none, it has
+    // one element at the end of the translation unit (C11 6.9.2p2, p5).
+    if (var->ty->kind == TY_ARRAY && var->ty->array_len < 0) {
+      Type *complete = NULL;
+      for (Obj *v = globals; v; v = v->next)
+        if (!v->is_function && !strcmp(v->name, var->name) &&
+            v->ty->kind == TY_ARRAY && v->ty->array_len >= 0)
+          complete = v->ty;
+      var->ty = complete ? complete : array_of(var->ty->base, 1);
+    }
+    cur = cur->next = var;
   }
 
   cur->next = NULL;
